@@ -9,7 +9,7 @@ import Univers.Vers.PyRtLemmas
 namespace Univers.Gen.LayerB
 open Univers Univers.PyRt
 
-variable {V : Type} (o : VOps V)
+variable {V : Type} (o : VOps V) (perm : List (Con V) → List (Con V))
 
 /-! ### `validate_comparators` -/
 
@@ -34,7 +34,7 @@ variable {V : Type} (o : VOps V)
   | mk k v => cases k <;> rfl
 
 theorem vc_for1_eq (cs : List (Con V)) (ie : List (Con V × Con V)) (ps : List (Con V × Con V)) :
-    pyFor ps () (validate_comparators_for1_body o cs ie) (validate_comparators_for1_after o cs ie)
+    pyFor ps () (validate_comparators_for1_body o perm cs ie) (validate_comparators_for1_after o perm cs ie)
       = if ps.any (fun p => (p.1.isUpper && !p.2.isLower) || (p.1.isLower && !p.2.isUpper)) then .error .ValueError
         else .ok true := by
   induction ps with
@@ -42,7 +42,7 @@ theorem vc_for1_eq (cs : List (Con V)) (ie : List (Con V × Con V)) (ps : List (
   | cons p ps ih =>
     obtain ⟨a, b⟩ := p
     simp only [pyFor_cons, List.any_cons]
-    have hb : validate_comparators_for1_body o cs ie (a, b) () =
+    have hb : validate_comparators_for1_body o perm cs ie (a, b) () =
         if (a.isUpper && !b.isLower) || (a.isLower && !b.isUpper) then .error .ValueError else .ok (.next ()) := by
       cases a with
       | star => cases b with
@@ -60,7 +60,7 @@ theorem vc_for1_eq (cs : List (Con V)) (ie : List (Con V × Con V)) (ps : List (
 
 /-- **`validate_comparators` as translated from the source is the model's `validateComparators`.** -/
 theorem validate_comparators_eq (cs : List (Con V)) :
-    validate_comparators o cs = validateComparators cs := by
+    validate_comparators o perm cs = validateComparators cs := by
   unfold validate_comparators validateComparators
   have h1 : cs.any (fun c => validate_comparators_tab1 (comparator c)) = cs.any Con.isStar := by
     congr 1; funext c; simp
